@@ -82,6 +82,7 @@ def make_ctx(tier):
 def run(ctx, tier):
     for r, t in (("G1", "guard before deref of the handle"), ("G1b", "disengaged exit returns the documented default"),
                  ("D1", "delegation to the member of the same name; data/length of the same object"),
+                 ("D4", "a wrapper with a scalar result returns the wrapped member's result itself"),
                  ("D2", "pointer/length parameters are paired"),
                  ("D3", "free-function wrappers make exactly the calls of the C++ operation (input with its base)"),
                  ("F1", "alloc / access / free types agree"),
@@ -465,6 +466,22 @@ def check_delegation(ctx, f, n):
                     order.append(pidx.get(x["id"], -1))
         ctx.check("D1", "%s argument order" % n, order == sorted(order), "parameters forwarded in order",
                   "arguments of %s are forwarded out of order: %s" % (member, X.show(nd)), where=where)
+        # D4: a wrapper with a scalar result hands back the member's result itself (not its negation, not a comparison)
+        ret_ty = (f.get("ret") or "").replace("const ", "")
+        if ret_ty in ("bool", "uint8_t", "size_t", "uint32_t", "unsigned char"):
+            for b in f["blocks"]:
+                for st in b["stmts"]:
+                    if st["k"] != "return" or st.get("e") is None:
+                        continue
+                    if not any(x is nd for x in X.walk(st["e"])):
+                        continue
+                    e0 = X.strip(st["e"])
+                    while isinstance(e0, dict) and e0.get("k") in ("cast",) :
+                        e0 = X.strip(e0["e"])
+                    ctx.check("D4", "%s returns the result of %s unchanged" % (n, member), e0 is nd,
+                              X.show(st["e"])[:60],
+                              "%s returns `%s`: the C function must return exactly what %s returns" % (n, X.show(st["e"])[:80], member),
+                              where=(st.get("loc") or where).replace("/repo/", ""))
 
 
 def check_strings(ctx, f, n):
